@@ -452,10 +452,7 @@ Definition generate_class_js_code (sc : script) : string :=
 
 " ++
   concat_all (map (fun f =>
-    (* f.name not in ('birth'): substring test on the string 'birth' *)
-    if (fix sub (fuel : nat) (hay : string) : bool :=
-          match fuel with O => false | S k =>
-            starts_with (f_name f) hay || match hay with EmptyString => false | String _ r => sub k r end end) 6%nat "birth"
+    if String.eqb (f_name f) "birth" || String.eqb (f_name f) "new"
     then ""
     else "function " ++ f_name f ++ "(obj, ...args) {
 " ++ indent 1 ++ "return obj." ++ f_name f ++ "(...args);
